@@ -2,7 +2,7 @@
    Only statements, `exact`, and Print Assumptions.  Model: Model/Pipeline.v (control flow of
    Request.Send/Do/do, Client.roundTrip, parseResponseBody, Response.ResultState/ToBytes, digest
    re-send; every user-supplied stage is an oracle value of the program). *)
-From ReqV Require Import Lib.Bytes Model.Pipeline Model.Entry Proofs.PipelineProofs Proofs.EntryProofs.
+From ReqV Require Import Lib.Bytes Model.Pipeline Model.Entry Model.CloneMw Proofs.PipelineProofs Proofs.EntryProofs Proofs.CloneMwProofs.
 Open Scope Z_scope.
 
 (* ---- classification: every status code - indeed every integer - falls in exactly one state ---- *)
@@ -431,6 +431,25 @@ Theorem C18_result_is_last_attempts : forall fl cfg atts n prev r e ls,
     ((0 < k)%nat -> exists p, prev' = Some p /\ r_result p = false /\ r_error p = ENone /\ r_cached p = false).
 Proof. exact result_is_last_attempts. Qed.
 Print Assumptions C18_result_is_last_attempts.
+
+(* ---- the middleware that run are those registered on THAT client (through Clone) ---- *)
+(* after the last registration on a client, nothing registered on - or cloned from - any client
+   (the original, a sibling, a clone of the clone) changes what that client carries *)
+Theorem C18_later_ops_on_others_irrelevant : forall ops s c, (c < length s)%nat ->
+  forallb (fun o => negb (touches c o)) ops = true ->
+  nth c (fold_left step ops s) ([], []) = nth c s ([], []).
+Proof. exact later_ops_on_others_irrelevant. Qed.
+Print Assumptions C18_later_ops_on_others_irrelevant.
+
+Theorem C18_clone_copies : forall s src, nth (length s) (step s (CClone src)) ([], []) = nth src s ([], []).
+Proof. exact clone_copies. Qed.
+Print Assumptions C18_clone_copies.
+
+Theorem C18_reg_appends : forall s c r m, (c < length s)%nat ->
+  nth c (step s (CReg c r m)) ([], []) =
+  (if r then (fst (nth c s ([], [])) ++ [m], snd (nth c s ([], []))) else (fst (nth c s ([], [])), snd (nth c s ([], [])) ++ [m])).
+Proof. exact reg_appends. Qed.
+Print Assumptions C18_reg_appends.
 
 (* ---- every verb-style entry point: the table regenerated from request.go / request_wrapper.go ----
    (Get/Post/Put/Patch/Delete/Head/Options, their Must* forms, and the package-level functions on
